@@ -303,7 +303,7 @@ def gen_op(rng, st, cfg):
     fp = cfg["fault_p"]
     s = rng.randint(0, 15)
     if kind == "mk" or not st.pool:
-        via = rng.weighted([("ctor_none", 2), ("ctor_nd", 6), ("ctor_num", 1), ("superset", 2), ("full", 1), ("full_nd", 1),
+        via = rng.weighted([("ctor_none", 2), ("ctor_nd", 6), ("ctor_num", 1), ("ctor_int", cfg.get("ints", 0)), ("ctor_subclass", 1), ("superset", 2), ("full", 1), ("full_nd", 1),
                             ("full_like", 2), ("scalar", 1), ("copy", 3)])
         if not st.pool and via in ("copy", "full_like"):
             via = "ctor_nd"
@@ -390,6 +390,18 @@ def gen_op(rng, st, cfg):
         return {"op": "split", "s": s, "dim": rng.randint(0, 4)}
     if kind == "stack":
         return {"op": "stack", "s": s, "dim": rng.randint(0, 4)}
+    if kind == "stock_compute":
+        return {"op": "stock_compute", "k": rng.randint(0, 3), "prms": rng.weighted([("keep", 2), ("good", 3), ("bad", 2)])}
+    if kind == "lifetime":
+        def prm():
+            how = rng.weighted([("num", 2), ("ref", 3), ("fresh", 3)])
+            if how == "num":
+                return {"how": "num"}
+            if how == "ref":
+                return {"how": "ref", "slot": rng.randint(0, 15)}
+            return {"how": "fresh", "dims": gen_dims(rng, st, 0, 3), "vseed": rng.randint(0, 10 ** 6)}
+        return {"op": "lifetime", "cls": rng.choice(["fixed", "normal", "weibull", "lognormal"]), "dims": gen_dims(rng, st, 0, 3),
+                "prm": [prm(), prm()], "via": rng.choice(["ctor", "set_prms"])}
     if kind == "stock":
         op = {"op": "stock", "cls": rng.choice(["simple", "inflow", "stockdriven"]), "dims": gen_dims(rng, st, 0, 3),
               "vseed": rng.randint(0, 10 ** 6), "lt": rng.weighted([("class", 3), ("instance", 2), ("instance_other", 1 if rng.chance(fp) else 0)])}
@@ -408,13 +420,13 @@ def gen_op(rng, st, cfg):
 
 def gen_cfg(rng, prop):
     base = {"mk": 5, "arith": 5, "reduce": 4, "slice": 5, "setitem": 6, "set_values": 3, "inplace_unary": 1, "df": 2,
-            "split": 1, "stack": 1, "stock": 2}
+            "split": 1, "stack": 1, "stock": 2, "lifetime": 1, "stock_compute": 1}
     if prop == "C05":
-        base.update({"setitem": 16, "slice": 4, "stock": 0, "df": 1, "set_values": 2})
+        base.update({"setitem": 16, "slice": 4, "stock": 0, "lifetime": 0, "stock_compute": 0, "df": 1, "set_values": 2})
     elif prop == "C15":
         base.update({"slice": 9, "arith": 8, "reduce": 6, "mk": 7})
     elif prop == "C13":
-        base.update({"set_values": 6, "stock": 4, "mk": 7})
+        base.update({"set_values": 6, "stock": 5, "lifetime": 3, "stock_compute": 4, "mk": 7})
     kinds = list(base)
     off = rng.subset(kinds, 0, 4)
     for k in off:
@@ -424,6 +436,7 @@ def gen_cfg(rng, prop):
     arith = [("add", 3), ("sub", 3), ("mul", 3), ("min", 1), ("max", 1), ("neg", 1), ("abs", 1), ("absm", 1), ("sign", 1),
              ("radd", 1), ("rsub", 1), ("rmul", 1), ("div", nonint), ("pow", nonint), ("rdiv", nonint)]
     return {"mix": [(k, w) for k, w in base.items() if w > 0], "fault_p": rng.choice([0.0, 0.1, 0.3]), "arith": arith,
+            "ints": 0 if prop == "C05" else rng.choice([0, 0, 2]),
             "nonint": nonint, "n_ops": rng.randint(6, 40)}
 
 
@@ -462,7 +475,7 @@ class ArraySim(Engine):
 
     def _sweep(self, run, prop, rng, base, tier):
         """F2: every line-event crash point of one mutating operation of this history"""
-        cands = [i for i, op in enumerate(run["ops"]) if op["op"] in ("setitem", "set_values", "inplace_unary", "mk", "stock")
+        cands = [i for i, op in enumerate(run["ops"]) if op["op"] in ("setitem", "set_values", "inplace_unary", "mk", "stock", "stock_compute")
                  or (op["op"] == "df" and op["mode"] != "to_df")]
         if not cands:
             return base
